@@ -2,6 +2,7 @@ import HcipyVerif.Lemmas.NearField
 import HcipyVerif.Lemmas.FourierLinkC04
 import HcipyVerif.Lemmas.NearFieldExec
 import HcipyVerif.Lemmas.NearFieldGRat
+import HcipyVerif.Lemmas.NearFieldMatrixExec
 import HcipyVerif.Lemmas.NearFieldTensor
 
 /-!
@@ -968,6 +969,64 @@ theorem filtp_backward_denotes_complex_pipeline (p : Params) (D x : ℕ → ℕ 
 
 /-- The inputs of `filtp` (Gaussian rationals written as `a + b·exp(2πi/4)`) denote themselves. -/
 theorem filtp_input_denotes (g : GRat) : PSum.ev (psumOfGRat g) = GRat.toC g := ev_psumOfGRat g
+
+/-! ### the matrix-valued transfer function: the executed pipeline `filterMP` (driver op `filtmp`) -/
+
+section pipelineM
+variable (p : Params) (h : padOK p = true) {n : ℕ}
+include h
+
+local notation "runMF" => filterMP p (kF (my p)) (kF (mx p)) (kB (my p)) (kB (mx p)) (((my p * mx p : ℕ) : ℂ)⁻¹)
+local notation "runMB" => filterMPBackward (starRingEnd ℂ) p (kF (my p)) (kF (mx p)) (kB (my p)) (kB (mx p))
+  (((my p * mx p : ℕ) : ℂ)⁻¹)
+
+/-- **Bridge**: `filterM` with the DFT of C01/C02 and the executable cut-out is the executable pipeline `filterMP`. -/
+theorem filterM_dft2_eq_filterMP (D : Fin (my p) × Fin (mx p) → Fin n → Fin n → ℂ)
+    (x : Fin n → Fin p.ny × Fin p.nx → ℂ) :
+    filterM (dftPair2 (my p) (mx p) (my_pos h) (mx_pos h)) (cutoutEmb p h) D x
+      = fun t j => runMF (fun py px i k => ext2 (fun m => D m i k) py px) (fun k => ext2 (x k)) t (j.1 : ℕ) (j.2 : ℕ) :=
+  funext fun t => funext fun j => filterM_dft2_apply p h D x t j
+
+theorem filterMBackward_dft2_eq_filterMPBackward (D : Fin (my p) × Fin (mx p) → Fin n → Fin n → ℂ)
+    (x : Fin n → Fin p.ny × Fin p.nx → ℂ) :
+    filterMBackward (dftPair2 (my p) (mx p) (my_pos h) (mx_pos h)) (cutoutEmb p h) D x
+      = fun t j => runMB (fun py px i k => ext2 (fun m => D m i k) py px) (fun k => ext2 (x k)) t (j.1 : ℕ) (j.2 : ℕ) :=
+  funext fun t => funext fun j => filterMBackward_dft2_apply p h D x t j
+
+/-- `backward` (the pipeline with the conjugate-transposed matrices) is the exact adjoint of `forward`: the executed
+matrix pipeline, any matrices, any padding, any number of components. -/
+theorem filterMP_adjoint (D : Fin (my p) × Fin (mx p) → Fin n → Fin n → ℂ) (x y : Fin n → Fin p.ny × Fin p.nx → ℂ) :
+    ∑ t, ip (y t) (fun j => runMF (fun py px i k => ext2 (fun m => D m i k) py px) (fun k => ext2 (x k)) t (j.1 : ℕ) (j.2 : ℕ))
+      = ∑ t, ip (fun j => runMB (fun py px i k => ext2 (fun m => D m i k) py px) (fun k => ext2 (y k)) t (j.1 : ℕ) (j.2 : ℕ))
+          (x t) := by
+  have ha := filterM_adjoint_sum (dftPair2 (my p) (mx p) (my_pos h) (mx_pos h)) (cutoutEmb p h) D x y
+  rw [filterM_dft2_eq_filterMP p h, filterMBackward_dft2_eq_filterMPBackward p h] at ha
+  exact ha
+
+end pipelineM
+
+/-- What `filtmp` computes denotes the complex matrix pipeline (every internal size, every `n`). -/
+theorem filtmp_forward_denotes_complex_pipeline {n : ℕ} (p : Params) (D : ℕ → ℕ → Fin n → Fin n → Fft.PSum)
+    (x : Fin n → ℕ → ℕ → Fft.PSum) (t : Fin n) (ky kx : ℕ) :
+    PSum.ev (filterMP p (pKerF (my p)) (pKerF (mx p)) (pKerB (my p)) (pKerB (mx p))
+        (Fft.PSum.ofRat (1 / ((my p * mx p : ℕ) : ℚ))) D x t ky kx)
+      = filterMP p (kF (my p)) (kF (mx p)) (kB (my p)) (kB (mx p)) (((my p * mx p : ℕ) : ℂ)⁻¹)
+          (fun a b i k => PSum.ev (D a b i k)) (fun k a b => PSum.ev (x k a b)) t ky kx := by
+  unfold filterMP
+  rw [filterMN_map PSum.ev PSum.ev_zero PSum.ev_add PSum.ev_mul, ev_scale,
+    funext (ev_pKerF (my p)), funext (ev_pKerF (mx p)), funext (ev_pKerB (my p)), funext (ev_pKerB (mx p))]
+
+theorem filtmp_backward_denotes_complex_pipeline {n : ℕ} (p : Params) (D : ℕ → ℕ → Fin n → Fin n → Fft.PSum)
+    (x : Fin n → ℕ → ℕ → Fft.PSum) (t : Fin n) (ky kx : ℕ) :
+    PSum.ev (filterMPBackward psumConj p (pKerF (my p)) (pKerF (mx p)) (pKerB (my p)) (pKerB (mx p))
+        (Fft.PSum.ofRat (1 / ((my p * mx p : ℕ) : ℚ))) D x t ky kx)
+      = filterMPBackward (starRingEnd ℂ) p (kF (my p)) (kF (mx p)) (kB (my p)) (kB (mx p)) (((my p * mx p : ℕ) : ℂ)⁻¹)
+          (fun a b i k => PSum.ev (D a b i k)) (fun k a b => PSum.ev (x k a b)) t ky kx := by
+  unfold filterMPBackward filterMNBackward
+  rw [filterMN_map PSum.ev PSum.ev_zero PSum.ev_add PSum.ev_mul, ev_scale,
+    funext (ev_pKerF (my p)), funext (ev_pKerF (mx p)), funext (ev_pKerB (my p)), funext (ev_pKerB (mx p))]
+  unfold conjT
+  simp only [ev_psumConj]
 
 /-- The hypotheses of the pipeline theorems are satisfiable with a genuinely padded, exactly executable size
 (`2×3` padded to `4×4`, the kernels of which are powers of `i`: a case the driver op `filt` runs). -/
